@@ -5,7 +5,7 @@
    loop of gather.go); S = the ONNX index formulas (Check/CheckC08.v: Slice-13 clamping rules, Gather
    formula, two-way broadcast, concatenation, permutation). *)
 From Coq Require Import List ZArith Bool String.
-From V Require Import DType Tensor Case OpCheck BroadcastProofs IndexOps CheckC08 ShapeOpsProofs IndexOpsProofs GatherLoop GatherLoopProofs.
+From V Require Import DType Tensor Case OpCheck BroadcastProofs IndexOps CheckC08 ShapeOpsProofs IndexOpsProofs GatherLoop GatherLoopProofs C08TransposeFormula.
 Import ListNotations.
 
 (* For EVERY case of the five operators -- any rank, any positive extents, any attributes and operand
@@ -48,6 +48,22 @@ Proof. exact (gather_loop_index_formula d a data idx). Qed.
 Print Assumptions C08_gather_loop_is_formula.
 Theorem C08_gather_model_is_loop axis data idx : gather_model axis data idx = gather_loop_model axis data idx.
 Proof. exact (gather_model_is_loop_total axis data idx). Qed.
+
+(* the value S prescribes for Transpose (transpose_value, used by spec above) IS the ONNX formula:
+   for every permutation perm of the axes -- any rank -- the shape is the permuted input shape, the
+   element type is the input's, the payload has one entry per element of that shape, and the element
+   at every valid index i is the input element at the index j with j[perm[k]] = i[k] for every axis k *)
+Theorem C08_transpose_spec_is_formula t (perm : list nat) :
+  List.length perm = List.length (sh t) -> NoDup perm -> (forall a, In a perm -> (a < List.length (sh t))%nat) ->
+  sh (transpose_value t perm) = map (fun a => nth a (sh t) 0%nat) perm /\
+  dt (transpose_value t perm) = dt t /\
+  List.length (pl (transpose_value t perm)) = numel (sh (transpose_value t perm)) /\
+  forall i, valid (sh (transpose_value t perm)) i ->
+    exists j, get 0%Z (tz (transpose_value t perm)) i = get 0%Z (tz t) j /\
+              List.length j = List.length (sh t) /\
+              forall k, (k < List.length (sh t))%nat -> nth (nth k perm 0%nat) j 0%nat = nth k i 0%nat.
+Proof. exact (transpose_spec_is_formula t perm). Qed.
+Print Assumptions C08_transpose_spec_is_formula.
 
 (* the two excluded corners are real disagreements between gorgonia-through-slice.go and S, outside
    what the harness generates and outside ONNX's defined behaviour: an axis named twice (ONNX: undefined),
